@@ -86,10 +86,12 @@ fn handle_disagreement<D: SuiteDef>(def: &D, input: D::In, model: &mut Model, re
     // greedy shrink
     let mut cur = input.clone();
     let mut steps = 0;
+    // minimisation is a convenience: bounded in steps and in wall-clock time (inputs of hundreds of kilobytes take long per try)
+    let t0 = std::time::Instant::now();
     'outer: loop {
         for cand in def.shrink(&cur) {
             steps += 1;
-            if steps > 4000 {
+            if steps > 4000 || t0.elapsed().as_secs() > 25 {
                 break 'outer;
             }
             if disagrees(def, &cand, model).is_some() {
@@ -106,7 +108,11 @@ fn handle_disagreement<D: SuiteDef>(def: &D, input: D::In, model: &mut Model, re
     neighbourhood.extend(def.shrink(&cur));
     neighbourhood.extend(def.shrink(&input).into_iter().take(200));
     let mut searched = 0;
+    let t1 = std::time::Instant::now();
     for cand in neighbourhood {
+        if searched >= 2 && t1.elapsed().as_secs() > 25 {
+            break;
+        }
         searched += 1;
         let (_, r) = def.eval(&cand);
         if let Some(detail) = def.oracle(&cand, &r, model) {
